@@ -28,7 +28,7 @@ ASSUMPTIONS = [
 ]
 COMPONENTS = {"real": ["pyxel.inputs.load_image / load_table", "pyxel.util.fit_into_array / load_cropped_and_aligned_image", "load_image and load_charge models inside run_mode", "real scratch filesystem (fsspec local)"], "stub": []}
 BUDGET = {"quick": {"n": 800, "wall": 100, "determinism": 4}, "thorough": {"n": 240000, "wall": 1500, "determinism": 12}}
-REQUIRED_REACH = ["header_loaded", "relative_to_working_directory", "second_working_directory", "op:write", "op:load_image", "op:load_table", "op:run", "rewrite_then_run", "rewrite_same_mtime_size", "fmt:npy", "fmt:fits", "fmt:txt", "delim:tab", "delim:space", "delim:comma", "delim:bar", "delim:semicolon", "place:offset", "place:align", "no_overlap_rejected", "input_larger", "input_smaller", "model:load_image", "model:load_charge"]
+REQUIRED_REACH = ["home_relative_paths", "header_loaded", "relative_to_working_directory", "second_working_directory", "op:write", "op:load_image", "op:load_table", "op:run", "rewrite_then_run", "rewrite_same_mtime_size", "fmt:npy", "fmt:fits", "fmt:txt", "delim:tab", "delim:space", "delim:comma", "delim:bar", "delim:semicolon", "place:offset", "place:align", "no_overlap_rejected", "input_larger", "input_smaller", "model:load_image", "model:load_charge"]
 
 DELIMS = {"tab": "\t", "space": " ", "comma": ",", "bar": "|", "semicolon": ";"}
 ALIGNS = ["center", "top_left", "top_right", "bottom_left", "bottom_right"]
@@ -86,6 +86,8 @@ def generate(rng, tier):
     if scn["relative"] and rng.random() < 0.5:
         k = rng.randint(1, len(ops))
         ops.insert(k, {"op": "switch_wd", "path": 0})
+    # or: paths written with '~' (the user's home directory is the scenario's scratch directory)
+    scn["home"] = (not scn["relative"]) and rng.random() < 0.25
     return scn
 
 
@@ -153,6 +155,17 @@ def reference_place(arr, rows, cols, position, align):
 
 
 def execute(scn):
+    home = os.environ.get("HOME")
+    try:
+        return _execute(scn)
+    finally:
+        if home is None:
+            os.environ.pop("HOME", None)
+        else:
+            os.environ["HOME"] = home
+
+
+def _execute(scn):
     import pyxel
     from pyxel.exposure import Exposure, Readout
     from pyxel.pipelines import DetectionPipeline, ModelFunction
@@ -176,6 +189,9 @@ def execute(scn):
     with world.Scratch() as scratch_root:
         scratch = os.path.join(scratch_root, "wd0")
         os.makedirs(scratch)
+        if scn.get("home"):
+            os.environ["HOME"] = scratch_root
+            stats["home_relative_paths"] = 1
         if scn.get("relative"):
             pyxel.set_options(working_directory=scratch)
             stats["relative_to_working_directory"] = 1
@@ -200,7 +216,7 @@ def execute(scn):
             w = op if op["op"] == "write" else meta[pid]
             ext = {"npy": "npy", "fits": "fits", "txt": "txt"}[w["fmt"]]
             path = os.path.join(scratch, f"input_{pid}.{ext}")
-            ref_path = f"input_{pid}.{ext}" if scn.get("relative") else path  # what is handed to pyxel
+            ref_path = f"input_{pid}.{ext}" if scn.get("relative") else (f"~/wd0/input_{pid}.{ext}" if scn.get("home") else path)  # what is handed to pyxel
             if op["op"] == "write":
                 arr = make_array(op)
                 stats["fmt:" + op["fmt"]] = 1
